@@ -498,6 +498,10 @@ def run(ck: Checker) -> None:
     ck.guard("R-INTERVAL-LAWS", lambda: r_interval_laws(ck))
     ck.guard("R-ADD-FORM", lambda: r_add_form(ck))
     ck.guard("R-MERGE-FLAT", lambda: r_merge_flat(ck))
+    from . import state_rules as S_
+    ck.guard("R-MERGE-FLAT", lambda: S_.r_unstable_key(ck, "R-MERGE-FLAT", [(ORIGIN, "merge_origins"), (ORIGIN, "concat_origins"), (ORIGIN, "MultiOrigin.__post_init__"), (ORIGIN, "CodeOrigin.__add__"), (ORIGIN, "Origin.__add__")], "the result lists the operands of this call"))
     ck.guard("R-SLICE", lambda: r_slice(ck))
+    from .c10 import r_operand_alias_mutation
+    ck.guard("R-MERGE-FLAT", lambda: r_operand_alias_mutation(ck, "R-MERGE-FLAT"))  # a + b leaves a and b as they were
     ck.require_count("R-INTERVAL-LAWS", 12)
     ck.require_count("R-MERGE-FLAT", 5)
